@@ -13,6 +13,7 @@ RULE = {"C17": "per sensor model: all 4096 ADC codes (v = code*5/4096) through A
                "excluded as in the quantifier); monotonicity over the sorted sample; sim helper round trips for distances "
                "inside/outside the range. Non-trivial = voltage > 0 whose power-law value lies strictly inside the range "
                "(the law, not the clamp, decides) or a sim distance inside the range; distinct = distinct (model, input)."}
+RULE["C17"] += '  Readings at or below 0 V must be the far end of the range (monotonicity); sub-LSB voltage steps; replays feed the recent input history first.'
 REQUIRED = {"C17": {"near-pair": 300, "adc-code": 3 * 4096, "special-double": 60, "random-double": 3000, "in-range-law-checked": 3000,
                     "clamped-low": 100, "clamped-high": 100, "monotone-pair": 10000, "sim-roundtrip": 600,
                     "sim-outside-range": 100, "sim-fresh-helper": 50, "sim-raw-write-between": 50}}
